@@ -231,12 +231,14 @@ func balloonGlue(c *Ctx, rule string) {
 				fmt.Sprintf("ProveMembership(%s, %s): index-is-ActualVersion=%v version-is-query=%v dominated-by-Actual<=query=%v (conds %s)", a1, a2, isActualLoad, queryOK, guarded, strings.Join(condStrings(cs), " ∧ ")))
 		}
 		// (5) CurrentVersion = b.version - 1
-		okC := false
+		okC := len(fieldStores("CurrentVersion")) > 0
 		var tC string
 		for _, st := range fieldStores("CurrentVersion") {
 			t := p.TermOf(st.Val)
-			tC = t.String()
-			okC = t.Op == "binop" && t.Name == "-" && t.Args[0].IsField("version", isParam(fn, 0)) && t.Args[1].Op == "const" && t.Args[1].Name == "1"
+			tC += t.String() + " "
+			if !(t.Op == "binop" && t.Name == "-" && t.Args[0].IsField("version", isParam(fn, 0)) && t.Args[1].Op == "const" && t.Args[1].Name == "1") {
+				okC = false
+			}
 		}
 		c.Check(okC, rule, name+":current-version", fn.Pos(), "CurrentVersion = version-1", "CurrentVersion ← "+tC+", expected b.version-1")
 	}
